@@ -108,7 +108,9 @@ def generate(rng, prop, tier):
     # environment fault: the archive file is writable but its directory is not (a shared read-only folder, a cache
     # file pre-created in a root-owned directory) and the writer is an unprivileged user
     rodir = label.startswith('file') and not backend.get('link') and bool(pre) and rng.chance(0.1)
-    return {'engine': 'crashsim', 'prop': prop, 'backend': backend, 'rodir': rodir,
+    # the archive file has a second name (a hard link made by somebody else: a snapshot, a shared cache)
+    hardlink = label.startswith('file') and not backend.get('link') and not rodir and bool(pre) and rng.chance(0.1)
+    return {'engine': 'crashsim', 'prop': prop, 'backend': backend, 'rodir': rodir, 'hardlink': hardlink,
             # the process that opens the survivor is a re-run of the same program: if that program seeds the global
             # random at start-up, it draws the same temporary names as the killed one did
             'rerun_same_seed': rng.chance(0.5),
@@ -394,6 +396,10 @@ def execute(case, prop, ctx):
         shutil.rmtree(work, ignore_errors=True)
         shutil.copytree(snap, work, symlinks=True)
         # copytree keeps mtimes (copystat); directories too
+        if case.get('hardlink'):
+            loc = B.location(cfg, work)
+            if os.path.isfile(loc):
+                os.link(loc, loc + '.snapshot')
         if rodir:
             loc = B.location(cfg, work)
             if os.path.isfile(loc):
@@ -461,6 +467,8 @@ def execute(case, prop, ctx):
         bump(faults, 'crash-before-%s%s' % (ev[0], '-partial' if partial else ''))
         if rodir:
             bump(faults, 'crash-with-unwritable-directory')
+        if case.get('hardlink'):
+            bump(faults, 'crash-with-hard-linked-archive-file')
         kinds_seen.add((ev[0], bool(partial)))
         code, seen = in_child(lambda: _reader(wcfg, work, case))
         if code != 0 or seen is None:
@@ -637,7 +645,8 @@ def evidence_info(prop):
                 'call, killed right before it, and once more per write with half of the buffer written (at most 160 '
                 'such points per scenario, evenly spaced when there are more). A tenth of the single-file scenarios run under '
                 'an environment fault: the archive file is writable (0666) but its directory is not (0555) and the traced '
-                'and crashing writer is demoted to uid 65534 (the survivor is still read by a fresh privileged process). A '
+                'and crashing writer is demoted to uid 65534 (the survivor is still read by a fresh privileged process); another '
+                'tenth give the archive file a second hard-linked name. A '
                 'fresh process then opens the archive: open/len/keys/items/__asdict__/cache.load() must not raise, '
                 'touched keys hold the previous or the new value (or absence), untouched keys are unchanged, no other key '
                 'exists. total_steps = crash points executed. distinct = distinct (backend, operation, prior size and '
